@@ -181,6 +181,16 @@ pub fn refit_cover(em: &mut Em) {
     }
 }
 
+/// "refit to the same model" presupposes that a parameter set (which holds its generator state) determines the model:
+/// when the *original* refits differently from call to call the clause cannot be established for it.  That is
+/// reported, not silently skipped — except for the reviewed case (`KMeansInit::KMeansPara`, skipped by its caller).
+fn nondet_reported(ctx: &mut Ctx, class: &str) {
+    if REVIEWED_NONDET_TYPES.contains(&type_of_class(class).as_str()) {
+        return;
+    }
+    ctx.fail("refit", &format!("{}:original_nondeterministic", class), "the original parameter set does not refit to the same model twice (several fits on the same data differ): the restored one cannot be compared".to_string());
+}
+
 /// restored parameters pass/fail validation like the originals and refit to the same model.
 /// When fitting the *original* several times already gives different models the comparison is skipped and counted
 /// (per type: `refit_cover`).
@@ -188,6 +198,7 @@ pub fn refit_same(ctx: &mut Ctx, class: &str, fa: &dyn Fn() -> String, fb_: &dyn
     let (a1, a2, a3) = (fa(), fa(), fa());
     if a1 != a2 || a1 != a3 {
         refit_skipped(class);
+        nondet_reported(ctx, class);
         return;
     }
     let b = fb_();
@@ -197,6 +208,7 @@ pub fn refit_same(ctx: &mut Ctx, class: &str, fa: &dyn Fn() -> String, fb_: &dyn
         let (a4, a5, b2) = (fa(), fa(), fb_());
         if a4 != a1 || a5 != a1 || b2 != b {
             refit_skipped(class);
+            nondet_reported(ctx, class);
             return;
         }
     }
